@@ -209,6 +209,21 @@ pub fn scale_model(c: &ScaleCase) -> ModelCase {
             }
             texts.push("11a11a1aあア火。1a1a11".into());
         }
+        8 => {
+            // a dictionary word of 32,767 characters (the longest a model may hold, 32,768
+            // weights) with entries that are its suffixes: a word and a character n-gram
+            let n = 32_767usize;
+            let word: String = (0..n).map(|i| ch(i % 97)).collect();
+            let weights: Vec<i32> = (0..=n).map(|i| (i % 13) as i32 - 6).collect();
+            let suffix: String = word.chars().skip(n - 10).collect();
+            let last: String = word.chars().skip(n - 1).collect();
+            spec.dict.push(WordSpec { word: word.clone(), weights, comment: String::new() });
+            spec.dict.push(WordSpec { word: suffix.clone(), weights: (0..=10).map(|i| i * 3 - 10).collect(), comment: String::new() });
+            spec.char_ngrams.push(NgramSpec { ngram: last, weights: vec![1, -2, 3, -4, 5, -6] });
+            texts.push(format!("{}{}{}", "前", word, "後"));
+            texts.push(format!("前{suffix}後{suffix}"));
+            texts.push(word.chars().skip(1).collect()); // one character short: no match
+        }
         _ => {
             // window 255 with 12-character n-grams and a text longer than the window
             spec.char_window = 255;
@@ -230,9 +245,10 @@ pub fn run(rep: &mut Report) {
         "deterministic cases at a scale the random generator does not reach: a 70,000-character \
 text with overlapping/suffix patterns, 70,000 n-grams, a 5,000-character dictionary word with a \
 suffix word, window 255 with 12-character n-grams on a 750-character text, n-grams of 255 .. 510 \
-characters and types under windows of 128 .. 255, 70,000 type n-grams under type window 4; same oracle",
+characters and types under windows of 128 .. 255, 70,000 type n-grams under type window 4, a \
+32,767-character dictionary word with suffix entries; same oracle",
         false,
-        [0u8, 1, 2, 3, 4, 5, 6, 7].into_iter().map(|kind| ScaleCase { kind }),
+        [0u8, 1, 2, 3, 4, 5, 6, 7, 8].into_iter().map(|kind| ScaleCase { kind }),
         |c: &ScaleCase| test_case(&scale_model(c)).map(|mut i| { i.nontrivial = true; i }),
     );
     let n = rep.n(15000, 750000);
